@@ -40,12 +40,14 @@ PROPS["C02"] = {
             {"name": "grammar", "run": "^TestGrammarLines$", "checks": 192000, "shards": 6},
             {"name": "nearmiss", "run": "^TestNearMisses$", "checks": 192000, "shards": 6},
             {"name": "arbitrary", "run": "^TestArbitraryStrings$", "checks": 96000, "shards": 3},
+            {"name": "tagbuf", "run": "^TestTagBufferIndependence$", "checks": 48000, "shards": 3},
         ],
         "thorough": [
             {"name": "corpus", "kind": "plain", "run": "^TestSeedCorpus$"},
             {"name": "grammar", "run": "^TestGrammarLines$", "checks": 3200000, "shards": 6, "timeout": 1700},
             {"name": "nearmiss", "run": "^TestNearMisses$", "checks": 3200000, "shards": 6, "timeout": 1700},
             {"name": "arbitrary", "run": "^TestArbitraryStrings$", "checks": 1600000, "shards": 4, "timeout": 1700},
+            {"name": "tagbuf", "run": "^TestTagBufferIndependence$", "checks": 1600000, "shards": 4, "timeout": 1700},
             {"name": "fuzz", "kind": "fuzz", "fuzz": "FuzzLexImplications", "time": "240s", "timeout": 600},
         ],
     },
@@ -62,8 +64,9 @@ PROPS["C03"] = {
             {"name": "seeds", "kind": "plain", "run": "^(TestDatagramSeeds|TestHeaderBoundaryPairs)$"},
             {"name": "lexer", "run": "^TestLexerNeverPanics$", "checks": 64000, "shards": 4},
             {"name": "parser", "run": "^TestParserAccounting$", "checks": 16000, "shards": 6},
-            {"name": "http", "run": "^TestHTTPIngestion$", "checks": 12000, "shards": 5},
-            {"name": "wire", "run": "^TestHTTPWire$", "checks": 4000, "shards": 4},
+            {"name": "http", "run": "^TestHTTPIngestion$", "checks": 12000, "shards": 5, "timeout": 900, "shrinktime": "5s"},
+            {"name": "wire", "run": "^TestHTTPWire$", "checks": 4000, "shards": 4, "timeout": 900, "shrinktime": "5s"},
+            {"name": "udp", "run": "^TestUDPReceiver$", "checks": 3000, "shards": 4},
         ],
         "thorough": [
             {"name": "seeds", "kind": "plain", "run": "^(TestDatagramSeeds|TestHeaderBoundaryPairs)$"},
@@ -71,6 +74,7 @@ PROPS["C03"] = {
             {"name": "parser", "run": "^TestParserAccounting$", "checks": 400000, "shards": 6, "timeout": 1700},
             {"name": "http", "run": "^TestHTTPIngestion$", "checks": 200000, "shards": 5, "timeout": 1700},
             {"name": "wire", "run": "^TestHTTPWire$", "checks": 120000, "shards": 6, "timeout": 1700},
+            {"name": "udp", "run": "^TestUDPReceiver$", "checks": 120000, "shards": 6, "timeout": 1700},
             {"name": "fuzz-datagram", "kind": "fuzz", "fuzz": "FuzzDatagram", "time": "180s", "timeout": 500},
             {"name": "fuzz-http-raw", "kind": "fuzz", "fuzz": "FuzzHTTPRaw", "time": "120s", "timeout": 500},
             {"name": "fuzz-http-event", "kind": "fuzz", "fuzz": "FuzzHTTPEvent", "time": "120s", "timeout": 500},
@@ -78,8 +82,8 @@ PROPS["C03"] = {
     },
     "assumptions": [
         "'each line is either parsed or counted as a bad line' is read as: parser.metrics_received + parser.events_received + parser.bad_lines_seen increases by the number of newline-separated segments (an empty segment in the middle counts as a bad line; the empty remainder after a trailing newline is not a segment)",
-        "a wedge is reported only after 60 s (datagram) / 120 s (HTTP) without completion of an operation that normally takes microseconds",
-        "the UDP socket read loop (receiver.go) is exercised end to end only by C20; here datagrams are injected at the parser's input channel",
+        "a wedge is reported only after 60 s (datagram) / 45 s (HTTP) without completion of an operation that normally takes microseconds",
+        "the UDP socket read loop (receiver.go) is exercised by the udp job (one reader, loopback, datagrams sent one at a time so that none is dropped by the kernel); the other datagram jobs inject at the parser's input channel",
     ],
 }
 
@@ -168,11 +172,13 @@ PROPS["C18"] = {
             {"name": "ticker", "run": "^TestAlignedTickerValues$", "checks": 2400, "shards": 8},
             {"name": "flusher", "run": "^TestAlignedFlusher$", "checks": 2400, "shards": 8},
             {"name": "jumps", "run": "^TestAlignedFlusherJumps$", "checks": 2400, "shards": 8},
+            {"name": "realclock", "run": "^TestAlignedFlusherRealClock$", "checks": 160, "shards": 8},
         ],
         "thorough": [
             {"name": "ticker", "run": "^TestAlignedTickerValues$", "checks": 160000, "shards": 8, "timeout": 1700},
             {"name": "flusher", "run": "^TestAlignedFlusher$", "checks": 160000, "shards": 8, "timeout": 1700},
             {"name": "jumps", "run": "^TestAlignedFlusherJumps$", "checks": 160000, "shards": 8, "timeout": 1700},
+            {"name": "realclock", "run": "^TestAlignedFlusherRealClock$", "checks": 8000, "shards": 16, "timeout": 1700},
         ],
     },
     "assumptions": [
